@@ -293,7 +293,7 @@ Proof.
       rewrite Hc.
       assert (Hu : forall t, subst_items ((k, txt) :: t) ps i =
                  match nth_error ps i with
-                 | Some v => match subst_items t ps (S i) with Some o => Some (render v ++ o) | None => None end
+                 | Some v => match subst_items t ps (S i) with Some o => Some (emit v ++ o) | None => None end
                  | None => None end) by (intros t; destruct Hk; subst k; reflexivity).
       rewrite !Hu. destruct (nth_error ps i) as [v|]; [|reflexivity].
       rewrite IH. destruct (subst_items pre ps (S i)); [|reflexivity].
@@ -318,7 +318,7 @@ Lemma anon_index_l :
       subst_items pre ps O = Some o1 /\
       nth_error ps (count_anon pre) = Some v /\
       subst_items post ps (S (count_anon pre)) = Some o2 /\
-      out = o1 ++ render v ++ o2.
+      out = o1 ++ emit v ++ o2.
 Proof.
   intros pre txt post ps out E. rewrite subst_items_app in E.
   destruct (subst_items pre ps O) as [o1|]; [|discriminate]. cbn [Nat.add] in E.
@@ -337,7 +337,7 @@ Lemma pos_index_l :
       subst_items pre ps O = Some o1 /\
       nth_error ps (Z.to_nat (n - 1)) = Some v /\
       subst_items post ps (count_anon pre) = Some o2 /\
-      out = o1 ++ render v ++ o2.
+      out = o1 ++ emit v ++ o2.
 Proof.
   intros pre n txt post ps out E. rewrite subst_items_app in E.
   destruct (subst_items pre ps O) as [o1|]; [|discriminate]. cbn [Nat.add] in E.
